@@ -13,7 +13,12 @@
                                     -> bf <new unit> <assignment value> <read back> <c11 conversion> | bf illformed
      bfcode <ubits> <usigned> <boff> <bwid> <bsigned>
                                     -> store: <insn>|<insn>... ; result rN ; load: <insn>|...
-   A leading word "old" selects the pre-fix model (q_conv_old, q_boolcast). *)
+     fbin <op> <ta> <va> <tb> <vb> | fun <op> <ta> <va> | fcast <t> <ta> <va> | fcond <tc> <vc> <ta> <va> <tb> <vb>
+     fland|flor <ta> <va> <tb> <vb>   (FFold: floating and mixed operands)
+                                    -> c2m <t> <v> | err     c11 <t> <v> | undef
+       a floating operand value is <+|-><hex mantissa>p<decimal exponent> | <+|->inf | nan; a floating result is
+       fin:<0|1>:<hex mantissa>:<decimal exponent> | zero:<0|1> | inf:<0|1> | nan
+   A leading word "old" selects the pre-fix model (q_conv_old, q_boolcast; for the f-queries q_ext). *)
 open C07x
 
 let rec pos_of_bits (s : string) (i : int) (acc : positive option) : positive option =
@@ -96,6 +101,42 @@ let insn_text = function
 let cv t v = { ct = ty t; cv = z_of_hex v }
 let show c = Printf.sprintf "%s %s" (tn c.ct) (hex_of_z c.cv)
 
+let is_fp t = (t = "float" || t = "double" || t = "ldouble")
+let dec_z (s : string) : z =      (* decimal exponent, possibly negative *)
+  let n = int_of_string s in
+  z_of_hex (if n < 0 then Printf.sprintf "-%x" (-n) else Printf.sprintf "%x" n)
+let rec dec_of_zint (z : z) : int = match z with
+  | Z0 -> 0
+  | Zpos p -> int_of_string ("0x" ^ hex_of_pos p)
+  | Zneg p -> - (int_of_string ("0x" ^ hex_of_pos p))
+let av t v : acv =
+  if not (is_fp t) then { aty = ty t; avl = AI (z_of_hex v) }
+  else begin
+    let neg = v.[0] = '-' in
+    let body = if v.[0] = '-' || v.[0] = '+' then String.sub v 1 (String.length v - 1) else v in
+    let x =
+      if body = "nan" then fp_nan (ty t)
+      else if body = "inf" then fp_inf (ty t) neg
+      else match String.split_on_char 'p' body with
+        | [m; e] -> fp_make (ty t) neg (z_of_hex m) (dec_z e)
+        | _ -> failwith ("bad floating value " ^ v) in
+    { aty = ty t; avl = AF x }
+  end
+let b01 b = if b then "1" else "0"
+let ashow (c : acv) =
+  match c.avl with
+  | AI z -> Printf.sprintf "%s %s" (tn c.aty) (hex_of_z z)
+  | AF x ->
+    let v = match fp_view x with
+      | VZero s -> "zero:" ^ b01 s
+      | VInf s -> "inf:" ^ b01 s
+      | VNan -> "nan"
+      | VFin (s, m, e) -> Printf.sprintf "fin:%s:%s:%d" (b01 s) (hex_of_pos m) (dec_of_zint e) in
+    (* the value's own format must be the format of the type *)
+    if tn (fp_type x) <> tn c.aty then failwith "floating value of another format than its type"
+    else Printf.sprintf "%s %s" (tn c.aty) v
+let oshow none = function Some c -> ashow c | None -> none
+
 let () =
   try
     while true do
@@ -137,6 +178,24 @@ let () =
         | ["lor"; ta; va; tb; vb] ->
           let a = cv ta va and b = cv tb vb in
           Printf.sprintf "c2m %s c11 %s" (show (fold_oror old a b)) (show (rt_oror a b))
+        | ["fbin"; o; ta; va; tb; vb] ->
+          let a = av ta va and b = av tb vb in
+          Printf.sprintf "c2m %s c11 %s" (oshow "err" (ffold_bin old (binop o) a b)) (oshow "undef" (rt_fbin (binop o) a b))
+        | ["fun"; o; ta; va] ->
+          let a = av ta va in
+          Printf.sprintf "c2m %s c11 %s" (oshow "err" (ffold_un (unop o) a)) (oshow "undef" (rt_fun (unop o) a))
+        | ["fcast"; t; ta; va] ->
+          let a = av ta va in
+          Printf.sprintf "c2m %s c11 %s" (oshow "err" (ffold_cast (ty t) a)) (oshow "undef" (rt_fcast (ty t) a))
+        | ["fcond"; tc; vc; ta; va; tb; vb] ->
+          let c = av tc vc and a = av ta va and b = av tb vb in
+          Printf.sprintf "c2m %s c11 %s" (oshow "err" (ffold_cond c a b)) (oshow "undef" (rt_fcond c a b))
+        | ["fland"; ta; va; tb; vb] ->
+          let a = av ta va and b = av tb vb in
+          Printf.sprintf "c2m %s c11 %s" (oshow "err" (ffold_andand a b)) (ashow (rt_fandand a b))
+        | ["flor"; ta; va; tb; vb] ->
+          let a = av ta va and b = av tb vb in
+          Printf.sprintf "c2m %s c11 %s" (oshow "err" (ffold_oror a b)) (ashow (rt_foror a b))
         | ["bf"; s; us; o; w; sg; bl; u; v] ->
           let f = bfield s us o w sg in
           if not (wf_bf f) then "bf illformed" else begin
